@@ -33,6 +33,24 @@ type ctx struct {
 	st   *State
 	d    isaenc.Desc
 	arch Arch
+	opt  Options
+}
+
+// fma32 / fma64: the fused multiply-add of the manuals (or, for the
+// UnfusedFMA variant, two roundings).
+func (c *ctx) fma32(a, b, x uint32) uint32 {
+	if c.opt.UnfusedFMA {
+		r, _ := madF32(a, b, x)
+		return r
+	}
+	return fmaF32(a, b, x)
+}
+
+func (c *ctx) fma64(a, b, x uint64) uint64 {
+	if c.opt.UnfusedFMA {
+		return b64(float64(f64(a)*f64(b)) + f64(x))
+	}
+	return fmaF64(a, b, x)
 }
 
 func bool32(b bool) uint32 {
